@@ -52,7 +52,9 @@ type cliResult struct {
 	dur      time.Duration
 }
 
-func runCLI(dir string, args ...string) cliResult { return runCLIEnv(dir, []string{"HOME=" + dir}, args...) }
+func runCLI(dir string, args ...string) cliResult {
+	return runCLIEnv(dir, []string{"HOME=" + dir}, args...)
+}
 
 func runCLIEnv(dir string, env []string, args ...string) cliResult {
 	bin, err := frugalCLI()
